@@ -90,6 +90,17 @@ pub enum Op {
     ToLonLat { theta: F, phi: F },
     NormalizeLongitudes { pts: Vec<(F, F)> },
     SphPolyArea { pts: Vec<(F, F, F)> },
+    // ---- low-level public functions (stateless today; a change could give them state)
+    PentagonShapeOps { verts: Vec<(F, F)>, px: F, py: F, k: F },
+    VectorOps { a: (F, F, F), b: (F, F, F), c: (F, F, F), t: F },
+    SphTriShape { pts: Vec<(F, F, F)>, n: u32, closed: bool, t: F },
+    CoordXform { x: F, y: F, z: F },
+    Barycentric { p: (F, F), tri: Vec<(F, F)> },
+    Gnomonic { a: F, b: F },
+    HilbertLow { n: u8, f0: bool, f1: bool, x: F, y: F, s: u64, res: u32, invert_j: bool, flip_ij: bool },
+    SerialLow { cell: u64, res: i32, res2: i32 },
+    OriginLow { theta: F, phi: F, origin: u8 },
+    Quaternions,
 }
 
 #[derive(Clone, PartialEq, Eq, Hash, Debug, Serialize, Deserialize)]
@@ -257,6 +268,16 @@ impl Op {
             Op::ToLonLat { .. } => "to_lon_lat",
             Op::NormalizeLongitudes { .. } => "normalize_longitudes",
             Op::SphPolyArea { .. } => "spherical_polygon_area",
+            Op::PentagonShapeOps { .. } => "pentagon_shape_methods",
+            Op::VectorOps { .. } => "vector_utils",
+            Op::SphTriShape { .. } => "spherical_triangle_shape",
+            Op::CoordXform { .. } => "coordinate_transforms_low",
+            Op::Barycentric { .. } => "barycentric",
+            Op::Gnomonic { .. } => "gnomonic",
+            Op::HilbertLow { .. } => "hilbert_low",
+            Op::SerialLow { .. } => "serialization_low",
+            Op::OriginLow { .. } => "origin_low",
+            Op::Quaternions => "quaternions_const",
         }
     }
 
@@ -520,6 +541,132 @@ fn exec_inner(op: &Op, env: &Env) -> Result<Vec<u64>, String> {
             let a1 = s.get_area().get();
             let a2 = s.get_area().get(); // second call answers from the object-local memo
             Ok(vec![b(a1), b(a2), b(s.contains_point(probe))])
+        }
+        Op::PentagonShapeOps { verts, px, py, k } => {
+            if verts.len() != 5 && verts.len() != 3 {
+                return Err("need 3 or 5 vertices".into());
+            }
+            let fs: Vec<Face> = verts.iter().map(|(x, y)| Face::new(x.v(), y.v())).collect();
+            let mut sh = if fs.len() == 5 {
+                PentagonShape::new([fs[0], fs[1], fs[2], fs[3], fs[4]])
+            } else {
+                PentagonShape::new_triangle([fs[0], fs[1], fs[2]])
+            };
+            let p = Face::new(px.v(), py.v());
+            let mut v = vec![b(sh.get_area()), b(sh.get_center().x()), b(sh.get_center().y()), b(sh.contains_point(p))];
+            v.extend(shape_bits(&sh.split_edges(3)));
+            sh.scale(k.v());
+            sh.rotate180();
+            sh.reflect_y();
+            sh.translate(p);
+            v.extend(shape_bits(&sh));
+            for f in sh.get_vertices() {
+                v.push(b(f.x()));
+            }
+            Ok(v)
+        }
+        Op::VectorOps { a, b: bb, c, t } => {
+            use a5::utils::vector as vu;
+            let (a, bv, c) = (Cartesian::new(a.0.v(), a.1.v(), a.2.v()), Cartesian::new(bb.0.v(), bb.1.v(), bb.2.v()), Cartesian::new(c.0.v(), c.1.v(), c.2.v()));
+            let s1 = vu::slerp(a, bv, t.v());
+            let q = vu::quadruple_product(a, bv, c, s1);
+            Ok(vec![
+                b(vu::vector_difference(a, bv)),
+                b(vu::triple_product(a, bv, c)),
+                b(s1.x()), b(s1.y()), b(s1.z()),
+                b(q.x()), b(q.y()), b(q.z()),
+                b(vu::length(c)), b(vu::vec3_length(&a)), b(vu::vec3_distance(&a, &c)),
+            ])
+        }
+        Op::SphTriShape { pts, n, closed, t } => {
+            let v: Vec<Cartesian> = pts.iter().map(|(x, y, z)| Cartesian::new(x.v(), y.v(), z.v())).collect();
+            let probe = v.first().copied().unwrap_or(Cartesian::new(0.0, 0.0, 1.0));
+            let mut sh = a5::geometry::SphericalTriangleShape::new(v)?;
+            let mut out = vec![b(sh.get_area().get()), b(sh.get_area().get()), b(sh.contains_point(probe))];
+            let s1 = sh.slerp(t.v());
+            out.extend([b(s1.x()), b(s1.y()), b(s1.z())]);
+            let (p, q, r) = sh.get_transformed_vertices(t.v());
+            out.extend([b(p.x()), b(q.y()), b(r.z())]);
+            for c in sh.get_boundary((*n as usize).min(64), *closed) {
+                out.extend([b(c.x()), b(c.y()), b(c.z())]);
+            }
+            Ok(out)
+        }
+        Op::CoordXform { x, y, z } => {
+            use a5::core::coordinate_transforms as ct;
+            let pol = ct::to_polar(Face::new(x.v(), y.v()));
+            let fc = ct::to_face(pol);
+            let sp = ct::to_spherical(Cartesian::new(x.v(), y.v(), z.v()));
+            let ca = ct::to_cartesian(sp);
+            let d = ct::rad_to_deg(Radians::new_unchecked(x.v()));
+            let r = ct::deg_to_rad(d);
+            let pg = pol.project_gnomonic();
+            let ug = sp.unproject_gnomonic();
+            Ok(vec![
+                b(pol.rho()), b(pol.gamma().get()), b(fc.x()), b(fc.y()), b(sp.theta().get()), b(sp.phi().get()),
+                b(ca.x()), b(ca.y()), b(ca.z()), b(d.get()), b(r.get()), b(pg.theta().get()), b(pg.phi().get()),
+                b(ug.rho()), b(ug.gamma().get()), b(Radians::new(x.v()).get()), b(Radians::new_unchecked(y.v()).to_degrees().get()),
+            ])
+        }
+        Op::Barycentric { p, tri } => {
+            use a5::coordinate_systems::FaceTriangle;
+            use a5::core::coordinate_transforms as ct;
+            if tri.len() != 3 {
+                return Err("need 3 vertices".into());
+            }
+            let t = FaceTriangle::new(Face::new(tri[0].0.v(), tri[0].1.v()), Face::new(tri[1].0.v(), tri[1].1.v()), Face::new(tri[2].0.v(), tri[2].1.v()));
+            let bc = ct::face_to_barycentric(Face::new(p.0.v(), p.1.v()), t);
+            let back = ct::barycentric_to_face(bc, t);
+            Ok(vec![b(bc.u), b(bc.v), b(bc.w), b(back.x()), b(back.y()), bc.is_valid() as u64, bc.is_inside_triangle() as u64])
+        }
+        Op::Gnomonic { a, b: bb } => {
+            let g = a5::projections::GnomonicProjection;
+            let pol = g.forward(Spherical::new(Radians::new_unchecked(a.v()), Radians::new_unchecked(bb.v())));
+            let sp = g.inverse(Polar::new(a.v().abs(), Radians::new_unchecked(bb.v())));
+            Ok(vec![b(pol.rho()), b(pol.gamma().get()), b(sp.theta().get()), b(sp.phi().get())])
+        }
+        Op::HilbertLow { n, f0, f1, x, y, s, res, invert_j, flip_ij } => {
+            use a5::coordinate_systems::KJ;
+            use a5::core::hilbert as h;
+            let flips = [if *f0 { h::YES } else { h::NO }, if *f1 { h::YES } else { h::NO }];
+            let kj = h::quaternary_to_kj(*n % 4, flips);
+            let fl = h::quaternary_to_flips(*n % 4);
+            let ij = IJ::new(x.v(), y.v());
+            let k2 = h::ij_to_kj(ij);
+            let i2 = h::kj_to_ij(KJ::new(x.v(), y.v()));
+            let an = h::s_to_anchor_internal(*s, (*res as usize).min(30), *invert_j, *flip_ij);
+            let s2 = h::ij_to_s_internal(ij, *invert_j, *flip_ij, (*res as usize).min(30));
+            Ok(vec![
+                b(kj.x()), b(kj.y()), fl[0] as i64 as u64, fl[1] as i64 as u64, b(k2.x()), b(k2.y()), b(i2.x()), b(i2.y()),
+                h::get_required_digits(IJ::new(x.v().abs(), y.v().abs())) as u64,
+                h::ij_to_quaternary(ij, flips) as u64,
+                an.k as u64, b(an.offset.x()), b(an.offset.y()), an.flips[0] as i64 as u64, an.flips[1] as i64 as u64, s2,
+            ])
+        }
+        Op::SerialLow { cell, res, res2 } => {
+            use a5::core::serialization as sz;
+            Ok(vec![
+                sz::is_first_child(*cell, None) as u64,
+                sz::is_first_child(*cell, Some((*res).clamp(0, 30))) as u64,
+                sz::get_stride((*res).clamp(0, 30)),
+                a5::core::cell_info::get_num_children((*res).clamp(-1, 30), (*res2).clamp(-1, 30).min((*res).clamp(-1, 30) + 10)) as u64,
+            ])
+        }
+        Op::OriginLow { theta, phi, origin } => {
+            let sp = Spherical::new(Radians::new_unchecked(theta.v()), Radians::new_unchecked(phi.v()));
+            let o = &a5::core::origin::get_origins()[*origin as usize % 12];
+            Ok(vec![a5::core::origin::is_nearest_origin(sp, o) as u64, b(a5::core::origin::haversine(sp, o.axis))])
+        }
+        Op::Quaternions => {
+            let mut v = Vec::new();
+            for q in a5::core::dodecahedron_quaternions::QUATERNIONS.iter() {
+                for x in q {
+                    v.push(b(*x));
+                }
+            }
+            use a5::core::constants as k;
+            v.extend([b(k::PHI), b(k::TWO_PI.get()), b(k::DIHEDRAL_ANGLE.get()), b(k::INTERHEDRAL_ANGLE.get()), b(k::FACE_EDGE_ANGLE.get()), b(k::DISTANCE_TO_VERTEX), b(k::R_MIDEDGE), b(k::R_CIRCUMSCRIBED), b(k::R_INSCRIBED)]);
+            Ok(v)
         }
     }
 }
